@@ -7,11 +7,16 @@ of A in the token response of B, response of issuer I delivered to the client fo
 response parameters right / wrong / absent, unknown / truncated / case-changed state, an ID token whose
 subject is another flow's nonce; BACK-CHANNEL answers - token response of a code exchange, refresh response, user
 info, directly / through the RPHandler / inside finalize - that carry members naming ANOTHER session: a `state`
-member, iss, client_id, nonce, code, ..., the ID Token of another flow).  After every operation the state stores of all clients
+member, iss, client_id, nonce, code, ..., the ID Token of another flow; values the RP's stores KNOW UNDER ANOTHER ROLE
+presented AS a state - every key of the binding map Current._map: the nonce of this / another pending flow, a bound subject,
+a bound session id, the state of a logout request, a key of another client's map behind the same RPHandler, plus member
+names and values of the records - in authorization responses, finalize, get_tokens / refresh / user info, the look-ups of
+the RPHandler).  After every operation the state stores of all clients
 (context.cstate._db / _map) are snapshotted.  The Gallina model (Model/RpState.v) replays every trace inside
 coqc; the oracle (frame condition on the snapshots + "accepted => state was issued by this RP for this
 issuer" + nonce / sub binding) is written from the property text and does not use the model.
 """
+import copy
 import os
 
 import engine as E
@@ -37,6 +42,16 @@ RULE = ("traces over 1-3 issuers (one real client each, with and without RPHandl
         "sub, __verified_id_token, __expires_at, x ID Token of own / other flow / own nonce with another user's sub / other "
         "flow's nonce with own sub / without nonce / of another issuer, then pairs (state of A + ID Token of A ...), each "
         "followed by the genuine requests of the sessions involved, plus random histories of such requests; "
+        "values the stores know under another role presented AS a state: sessions A (finished: subject bound; at providers "
+        "that want session ids also sid bound by the finalize pipeline and the state of an end-session request bound by "
+        "logout), B, C (other issuer), D (pending) and EVERY key of every client's binding map (nonce of A / B / C / D, "
+        "subject, sid, logout state) + record member names + record values, each delivered to the client that holds it and "
+        "to another client as the `state` of an authorization response (with a code / with the genuine ID Token of the flow "
+        "the key is bound to / with right iss + client_id / as an error response / as a hybrid response), to finalize, as "
+        "the state argument of get_tokens / refresh_access_token / get_user_info (direct and routed), and to "
+        "state2issuer / get_client_from_session_key / get_session_information / has_active_authentication / "
+        "get_valid_access_token / logout / clear_session, followed by the genuine requests of the sessions, plus random "
+        "histories mixing such presentations with genuine operations; ground truth = the set of states the RP issued; "
         "a trace is non-trivial when it has at least two pending flows and at least one accepted and one refused delivery")
 ASSUMPTIONS = [
     "state and nonce values drawn by the client (rndstr) are fresh: they are fed to the model as observed",
@@ -44,6 +59,9 @@ ASSUMPTIONS = [
     "the token and userinfo endpoints answer 200 with a JSON object (error statuses are not modelled)",
     "the finalize pipeline (finalize_auth + get_tokens + get_user_info in one call) is judged by the oracle only",
     "the token-exchange service is not one of a StandAloneClient's default services and is not driven",
+    "calls the model has no step for (finalize pipeline, logout, has_active_authentication, get_valid_access_token, "
+    "clear_session, the routed look-ups other than state2issuer) are judged by the oracle; the model replay continues "
+    "from the observed stores after them (PSync)",
 ]
 
 USERS = ["diana", "bob", "carol"]
@@ -242,6 +260,77 @@ def backchannel_oracle(ctx, kind, det, target, issued, ok, changed, before_db, a
                       "record of %s holds (%r): %s" % (ui["sub"], target, stored.get("sub"), what), rec)
 
 
+def role_of(value, at_issuer, flows, before_map, before_db, logout_states):
+    """what the relying party's stores know a value as, when it is not a state it issued for the client of at_issuer
+    (generator ground truth: nonces, subjects, session ids and logout states are what the generator / the clients
+    drew; the maps only say whether the value is bound right now)"""
+    if not isinstance(value, str):
+        return "not-a-string"
+    bound = any(k == value for (_, k) in before_map)
+    for f in flows:
+        if value == f.nonce:
+            return "nonce-of-flow-of-%s-client" % ("this" if f.issuer == at_issuer else "another")
+    for f in flows:
+        if value == f.state:
+            return "state-of-another-client"
+    if value in USERS:
+        return "bound-subject" if bound else "unbound-subject"
+    if value.startswith("sid-"):
+        return "bound-sid" if bound else "unbound-sid"
+    if value in logout_states:
+        return "bound-logout-state" if bound else "unbound-logout-state"
+    if bound:
+        return "bound-key"
+    if any(value in rec for rec in before_db.values()):
+        return "record-member-name"
+    if any(value == v for rec in before_db.values() for v in rec.values() if isinstance(v, str)):
+        return "record-value"
+    return "unbound"
+
+
+RESOLVED = {   # which outcome of a look-up means "this value was taken for a session"
+    "state2issuer": lambda out: bool(out[1]),
+    "has_active_authentication": lambda out: bool(out[1].get("active")),
+    "routed_has_active_authentication": lambda out: bool(out[1].get("active")),
+    "clear_session": lambda out: False,
+    "routed_clear_session": lambda out: False,
+}
+
+
+def lookup_oracle(ctx, kind, det, out, issued, flows, changed, mchanged, before_db, before_map, logout_states, what, rec):
+    """Ground truth = the states this relying party issued.  A look-up / logout made with a value that is not one of
+    them finds no issuer, no client, no session, builds no logout request, and changes nothing - whatever else the
+    stores know the value as."""
+    ok = out[0] == "ok"
+    K = det["state"]
+    if kind == "logout":
+        api, at = ("routed_logout" if det.get("routed") else "logout"), det["issuer"]
+    else:
+        api, at = det["api"], det["issuer"]
+    routed = api.startswith("routed") or api in ("state2issuer", "client_from_session_key")
+    is_state = any(s == K for (_, s) in issued) if routed else (at, K) in issued
+    role = "issued-state" if is_state else role_of(K, at, flows, before_map, before_db, logout_states)
+    ctx.count("lookup:%s:%s:%s" % (api, role, "ok" if ok else out[1]))
+    if is_state:
+        # a genuine call: clear_session removes the session and its bindings, logout binds the state of the
+        # end-session request to this session; nothing else may change
+        tgt = {k for k in issued if k[1] == K}
+        for k in changed:
+            if k not in tgt or not api.endswith("clear_session"):
+                ctx.violation("frame-other-session-record", "%s(%r) changed the record of %s: %s" % (api, K, k, what), rec)
+        if not api.endswith("clear_session"):
+            for (iss, key) in mchanged:
+                if not (api.endswith("logout") and ok and key == out[1].get("state") and (iss, key) not in before_map):
+                    ctx.violation("frame-map-foreign-binding", "%s(%r) changed the binding of %r: %s" % (api, K, key, what), rec)
+        return
+    if changed or mchanged:
+        ctx.violation("unissued-state-changed-stores:" + api, "%s with %r (%s, never issued as a state) altered the stores: "
+                      "%s; changed %s %s" % (api, K, role, what, sorted(changed), sorted(mchanged)), rec)
+    if ok and RESOLVED.get(api, lambda o: True)(out):
+        ctx.violation("unissued-state-resolved:%s:%s" % (api, role), "%s resolved %r, which this relying party never issued "
+                      "as a state (the stores know it as: %s): %s" % (api, K, role, what), rec)
+
+
 def norm_db(snap):
     return {(iss, st): rec for iss, db, _ in snap for st, rec in db.items()}
 
@@ -254,6 +343,7 @@ def oracle(ctx, world, flows, rec):
     """Decide the property text on the observed snapshots of every operation of the trace."""
     issued = {(f.issuer, f.state): f for f in flows}
     nonce_of = {(f.issuer, f.nonce): f for f in flows}
+    logout_states = set()         # the states of end-session requests the clients drew so far
     for step in world.log:
         kind, det, out = step["op"], step["detail"], step["out"]
         if kind == "begin":
@@ -265,6 +355,11 @@ def oracle(ctx, world, flows, rec):
         changed = {k for k in set(before_db) | set(after_db) if before_db.get(k) != after_db.get(k)}
         mchanged = {k for k in set(before_map) | set(after_map) if before_map.get(k) != after_map.get(k)}
         what = "%s %s -> %s" % (kind, {k: v for k, v in det.items() if k != "tok"}, out if not ok else "ok")
+        if kind in ("probe", "logout"):
+            lookup_oracle(ctx, kind, det, out, issued, flows, changed, mchanged, before_db, before_map, logout_states, what, rec)
+            if kind == "logout" and ok and isinstance(out[1].get("state"), str):
+                logout_states.add(out[1]["state"])
+            continue
         # which (issuer, state) did the operation address
         if kind == "authz":
             st = det["params"].get("state")
@@ -277,6 +372,21 @@ def oracle(ctx, world, flows, rec):
             target = (holders[0] if holders else None, det["state"])
         else:
             target = (det["issuer"], det["state"])
+        # (0) ground truth = the states this relying party issued: a value that is not one of them - whatever else the
+        # stores know it as (the nonce of a flow, a bound subject / session id / logout state, a key of another client's
+        # map, a member name or a value of a record) - is an unknown state: refused, nothing changes
+        if target not in issued and isinstance(target[1], str):
+            role = role_of(target[1], det.get("issuer") if target[0] is None else target[0], flows, before_map, before_db,
+                           logout_states)
+            accepted = ok and not is_error_resp
+            ctx.count("presented-as-state:%s:%s:%s" % (role, kind, "ACCEPTED" if accepted else "refused"))
+            if accepted:
+                ctx.violation("unissued-state-accepted:%s:%s" % (kind, role), "%s accepted for %r, which this relying party "
+                              "never issued as a state for %s (the stores know it as: %s): %s"
+                              % (kind, target[1], target[0], role, what), rec)
+            if changed or mchanged:
+                ctx.violation("unissued-state-changed-stores:" + kind, "%s presenting %r (%s, never issued as a state) altered "
+                              "the stores: %s; changed %s %s" % (kind, target[1], role, what, sorted(changed), sorted(mchanged)), rec)
         # (a) a refused operation changes nothing
         # (finalize is a pipeline: its first stage may have been accepted - and recorded under the addressed state,
         #  which (b) and (c) hold it to - before a later stage is refused)
@@ -376,7 +486,8 @@ def oracle(ctx, world, flows, rec):
 
 
 # ---------------------------------------------------------------------------------- trace families
-def finish(ctx, world, flows, family, traces):
+def finish(ctx, world, flows, family, traces, probes=False):
+    """probes: the trace has look-ups / calls without a model step: it is replayed as a ptrace_case (chk_bound_keys)"""
     rec = {"family": family, "flows": [(f.issuer, f.state, f.nonce, f.user, f.rt) for f in flows],
            "ops": [{"op": s["op"], "detail": {k: v for k, v in s["detail"].items()}, "out": s["out"]} for s in world.log]}
     outs = [s["out"][0] for s in world.log if s["op"] != "begin"]
@@ -385,7 +496,12 @@ def finish(ctx, world, flows, family, traces):
         ctx.count("op:" + s["op"])
         ctx.count("out:" + (s["out"][0] if s["out"][0] == "ok" else s["out"][1]))
     oracle(ctx, world, flows, rec)
-    if world.modellable():
+    if probes:
+        if world.modellable_p():
+            traces.append((world.coq_ptrace(), rec))
+        else:
+            ctx.unmodelled += 1
+    elif world.modellable():
         traces.append((world.coq_trace(), rec))
     else:
         ctx.unmodelled += 1
@@ -741,6 +857,198 @@ def random_backchannel_history(ctx, base_world, rng, traces):
     finish(ctx, w, flows, "random-backchannel", traces)
 
 
+# ---------------------------------------------------------------------------------- values the stores know, presented AS a state
+RECORD_MEMBERS = ("iss", "nonce", "code", "__verified_id_token")
+SID_OF_A = "sid-of-session-A"
+
+
+def rich_world(clock, rph):
+    """clients with the end_session service at providers that want a session id in logout tokens: the finalize
+    pipeline then binds sid -> state, and logout(state) binds the state of the end-session request -> state"""
+    from idpyoidc.client.defaults import DEFAULT_OIDC_SERVICES
+    svcs = copy.deepcopy(DEFAULT_OIDC_SERVICES)
+    svcs["end_session"] = {"class": "idpyoidc.client.oidc.end_session.EndSession"}
+    wd = H.enable_token_endpoint_auth(H.make_world(
+        clock, issuers=(H.ISS, H.ISS2), rph=rph, reg="dynamic", sigalg="RS256",
+        extra={"services": svcs, "post_logout_redirect_uris": ["https://rp.example.com/cli/logged_out"]}))
+    for iss, c in wd.clients.items():
+        pi = c.get_context().provider_info
+        pi["end_session_endpoint"] = iss + "/end_session"
+        pi["backchannel_logout_session_required"] = True
+    wd.rich = True
+    return wd
+
+
+def bk_complete(w, flows, k, rich, sid=None, logout=False):
+    """session k gets its tokens and an ID Token (subject bound); rich: through the finalize pipeline with a session id"""
+    f = flows[k]
+    if rich:
+        tok = idtoken(f, w.clock.now, hybrid=False)
+        if sid:
+            tok["claims"]["sid"] = sid
+        w.finalize(f.issuer, {"state": f.state, "code": f.code},
+                   {"access_token": f.at, "token_type": "Bearer", "expires_in": 300, "refresh_token": "rt-%d" % f.n}, tok,
+                   {"sub": f.user, "name": f.user.title()})
+        if logout:
+            w.logout(f.issuer, f.state)
+    else:
+        deliver_authz(w, flows, f.issuer, k, None, k, None, None, None)
+        bc_call(w, flows, "token", k, idt="own")
+
+
+def bk_start(w, rich):
+    """A (flow 0, diana) finished: subject bound (rich: also sid and a logout state); B (flow 1, bob) and C (flow 2,
+    carol, other issuer) finalized, code not yet redeemed; D (flow 3, same client as A and B) only begun"""
+    flows = start(w, BC_PLAN)
+    bk_complete(w, flows, 0, rich, sid=SID_OF_A, logout=True)
+    for k in (1, 2):
+        deliver_authz(w, flows, flows[k].issuer, k, None, k, None, None, None)
+    return flows
+
+
+def bound_keys(w, flows):
+    """every key of every client's binding map: (what it is, the key, the issuer whose client holds it, the flow it is
+    bound to); then member names and values of the records (held by the first client)"""
+    by_state = {(f.issuer, f.state): f for f in flows}
+    states = {f.state for f in flows}
+    out = []
+    for iss, c in w.clients.items():
+        for k, st in c.get_context().cstate._map.items():
+            if k in states:
+                continue
+            f = by_state.get((iss, st))
+            what = ("nonce" if f is not None and k == f.nonce else "subject" if k in USERS else
+                    "sid" if k.startswith("sid-") else "logout-state")
+            out.append(("%s-of-flow%s" % (what, "?" if f is None else f.n), k, iss, f))
+    first = next(iter(w.clients))
+    out += [("member-name:" + m, m, first, None) for m in RECORD_MEMBERS]
+    out += [("record-value:code", flows[1].code, first, flows[1]), ("record-value:client_id", H.CLIENT_ID, first, None)]
+    return out
+
+
+BK_FRONT = ("authz:code", "authz:code+idtoken", "authz:iss+client_id", "authz:error", "authz:hybrid")
+BK_BACK = ("token", "refresh", "userinfo")
+BK_ROUTED = ("routed_token", "routed_refresh", "routed_userinfo")
+BK_LOOKUP = ("session", "has_active_authentication", "get_valid_access_token", "logout", "clear_session")
+BK_RPH = ("state2issuer", "client_from_session_key", "routed_session", "routed_has_active_authentication",
+          "routed_get_valid_access_token", "routed_logout", "routed_clear_session")
+
+
+def bk_kinds(w):
+    return BK_FRONT + BK_BACK + BK_LOOKUP + ("finalize",) + ((BK_ROUTED + BK_RPH) if w.rph is not None else ())
+
+
+def bk_op(w, flows, kind, K, to, f):
+    """present the value K AS A STATE to the client of `to` (f: the flow K is bound to, whose genuine artefacts make
+    the most convincing company for it)"""
+    now = w.clock.now
+    own = f if f is not None else flows[min(1, len(flows) - 1)]
+    body = {"access_token": "at-presented", "token_type": "Bearer", "expires_in": 300}
+    if kind == "authz:code":
+        return w.authz(to, {"state": K, "code": flows[min(1, len(flows) - 1)].code})
+    if kind == "authz:code+idtoken":
+        return w.authz(to, {"state": K, "code": own.code}, idtoken(own, now, hybrid=True))
+    if kind == "authz:iss+client_id":
+        return w.authz(to, {"state": K, "code": own.code, "iss": to, "client_id": H.CLIENT_ID})
+    if kind == "authz:error":
+        return w.authz(to, {"state": K, "error": "access_denied"})
+    if kind == "authz:hybrid":
+        g = copy.copy(own)
+        g.rt = "code id_token token"
+        mint_own(g, now)
+        return w.authz(to, {"state": K, "code": g.code, "access_token": g.aat, "token_type": "Bearer"}, g.tok)
+    if kind in ("token", "routed_token"):
+        return w.token(to, K, dict(body), idtoken(own, now, hybrid=False), routed=kind.startswith("routed"))
+    if kind in ("refresh", "routed_refresh"):
+        return w.refresh(to, K, dict(body), idtoken(own, now, hybrid=False), routed=kind.startswith("routed"))
+    if kind in ("userinfo", "routed_userinfo"):
+        return w.userinfo(to, K, {"sub": own.user}, routed=kind.startswith("routed"))
+    if kind == "finalize":
+        return w.finalize(to, {"state": K, "code": own.code}, dict(body, refresh_token="rt-presented"),
+                          idtoken(own, now, hybrid=False), {"sub": own.user})
+    return w.probe(kind, K, to)
+
+
+def bk_followups(w, flows):
+    """the genuine requests of the sessions: each is served from the record of ITS state, and the look-ups find them"""
+    deliver_authz(w, flows, flows[3].issuer, 3, None, 3, None, None, None)
+    bc_call(w, flows, "token", 1, idt="own")
+    bc_call(w, flows, "userinfo", 0)
+    bc_call(w, flows, "refresh", 0, idt="own", gen=8)
+    w.probe("session", flows[0].state, flows[0].issuer)
+    if w.rph is not None:
+        w.probe("state2issuer", flows[1].state)
+        w.probe("state2issuer", flows[2].state)
+
+
+def bound_key_matrix(ctx, base_world, traces, tag):
+    """EVERY key of every binding map (and the record member names / values) x {the client that holds it, another
+    client} x every way a state is presented; one trace per (key, client): all presentations, then the follow-ups"""
+    rich = getattr(base_world, "rich", False)
+    w = H.fresh_world(base_world)
+    n = len(bound_keys(w, bk_start(w, rich)))
+    for j in range(n):
+        for other in (False, True):
+            w = H.fresh_world(base_world)
+            flows = bk_start(w, rich)
+            label, K, holder, f = bound_keys(w, flows)[j]
+            to = holder
+            if other:
+                if not (label.startswith("nonce") or label.startswith("subject")):
+                    continue
+                to = [i for i in w.clients if i != holder][0]
+            for kind in bk_kinds(w):
+                bk_op(w, flows, kind, K, to, f)
+            bk_followups(w, flows)
+            ctx.count("bound-key-trace:" + label.split("-of-")[0].split(":")[0])
+            finish(ctx, w, flows, "bound-key%s:%s%s" % (tag, label, ":at-another-client" if other else ""), traces, probes=True)
+
+
+def random_bound_key_history(ctx, base_world, rng, traces):
+    """3-5 sessions over the issuers of the world at random stages (pending / finalized / with tokens; rich worlds: through
+    the finalize pipeline with a session id, some with a logout request), then 8-16 steps: a value the stores know under
+    another role presented as a state in a random way to a random client (65%), or a genuine operation of a random session"""
+    rich = getattr(base_world, "rich", False)
+    w = H.fresh_world(base_world)
+    issuers = list(w.clients)
+    n = rng.randint(3, 5)
+    flows = start(w, [(rng.choice(issuers), rng.choice(USERS), "code") for _ in range(n)])
+    for k in range(n):
+        r = rng.random()
+        if r < 0.25:
+            continue
+        if r < 0.6:
+            bk_complete(w, flows, k, rich, sid="sid-%d" % k if rng.random() < 0.7 else None, logout=rng.random() < 0.5)
+        else:
+            deliver_authz(w, flows, flows[k].issuer, k, None, k, None, None, None)
+    kinds = bk_kinds(w)
+    for g in range(rng.randint(8, 16)):
+        if rng.random() < 0.65:
+            label, K, holder, f = rng.choice(bound_keys(w, flows))
+            to = holder if rng.random() < 0.7 else rng.choice(issuers)
+            bk_op(w, flows, rng.choice(kinds), K, to, f)
+            continue
+        k = rng.randrange(len(flows))
+        f = flows[k]
+        what = rng.choice(["authz", "token", "userinfo", "refresh", "session", "state2issuer", "begin", "logout"])
+        if what == "authz":
+            deliver_authz(w, flows, f.issuer, k, None, k, None, None, None)
+        elif what in ("token", "userinfo", "refresh"):
+            bc_call(w, flows, what, k, idt="own" if what != "userinfo" else None, routed=rng.random() < 0.3, gen=g)
+        elif what == "session":
+            w.probe("session", f.state, f.issuer)
+        elif what == "state2issuer":
+            if w.rph is not None:
+                w.probe("state2issuer", f.state)
+        elif what == "begin":
+            iss = rng.choice(issuers)
+            st, nonce = w.begin(iss, "code")
+            flows.append(Flow(len(flows), iss, st, nonce, rng.choice(USERS), "code"))
+        elif rich:
+            w.logout(f.issuer, f.state, routed=w.rph is not None and rng.random() < 0.3)
+    finish(ctx, w, flows, "random-bound-key", traces, probes=True)
+
+
 def run(ctx):
     import logging
     logging.disable(logging.CRITICAL)
@@ -790,8 +1098,20 @@ def run(ctx):
     bcs = list(bc_worlds.values())
     for i in range(150 if ctx.quick else 3000):
         random_backchannel_history(ctx, bcs[i % len(bcs)], rng, traces)
+    # values the stores know under another role presented AS a state (after all older random families, so that those
+    # draw the same histories for a seed as before)
+    ptraces = []
+    bk_worlds = {"-rph": bc_worlds["-rph"], "-sa": bc_worlds["-sa"], "-rich-rph": rich_world(clock, True),
+                 "-rich-sa": rich_world(clock, False)}
+    for tag, wd in bk_worlds.items():
+        bound_key_matrix(ctx, wd, ptraces, tag)
+    bks = list(bk_worlds.values())
+    for i in range(80 if ctx.quick else 3000):
+        random_bound_key_history(ctx, bks[i % len(bks)], rng, ptraces)
     clock.uninstall()
     H.check_cases(ctx, H.TRACE_IMPORTS, H.TRACE_TYPE, "chk_trace", traces, shard=40, label="trace", diag="first_bad_step")
+    H.check_cases(ctx, H.TRACE_IMPORTS, H.PTRACE_TYPE, "chk_bound_keys", ptraces, shard=20, label="ptrace",
+                  diag="first_bad_pstep")
 
 
 def replay(ctx, rp):
